@@ -15,7 +15,7 @@ func init() {
 	register(&Spec{
 		ID:          "C16",
 		Loads:       []LoadSpec{{Patterns: []string{"./payments/db"}}},
-		Explanation: "Decides that the status function implements the documented 16-row table (so a payment with a settled attempt is never failed), that its four inputs are set only from the attempts' Failure/Settle fields and the failure reason, that the status predicates admit exactly the documented statuses, that Status/State are written only by setState from decidePaymentStatus below `sent <= total`, that Registrable and verifyAttempt hold the amount and terminal-state guards, and that in both stores every write of InitPayment / RegisterAttempt / SettleAttempt / FailAttempt / Delete* is reachable only through its gate, evaluated inside the same transaction on a status derived from the stored payment; the key-value store additionally refuses to settle or fail an attempt that already has a settle or fail record. After the repairs of round 4 (c16_fix4.go): amounts are added only through a saturating helper whose body is evaluated on boundary values; the kv hop codec persists and reads back every record verifyAttempt decides on; FinalHop() is dereferenced only below its nil test; both loaders list attempts by attempt id; the sql bulk delete's time window excludes nothing; every kv lookup by payment hash answers ErrPaymentNotInitiated; verifyAttempt's MPP / AMP / blinded rejections sit under exactly their mismatch conditions and stop the admission.",
+		Explanation: "Decides that the status function implements the documented 16-row table (so a payment with a settled attempt is never failed), that its four inputs are set only from the attempts' Failure/Settle fields and the failure reason, that the status predicates admit exactly the documented statuses, that Status/State are written only by setState from decidePaymentStatus below `sent <= total`, that Registrable and verifyAttempt hold the amount and terminal-state guards, and that in both stores every write of InitPayment / RegisterAttempt / SettleAttempt / FailAttempt / Delete* is reachable only through its gate, evaluated inside the same transaction on a status derived from the stored payment; the key-value store additionally refuses to settle or fail an attempt that already has a settle or fail record. After the repairs of round 4 (c16_fix4.go): amounts are added only through a saturating helper whose body is evaluated on boundary values; the kv hop codec persists and reads back every record verifyAttempt decides on; FinalHop() is dereferenced only below its nil test; both loaders list attempts by attempt id; the sql bulk delete's time window excludes nothing; every kv lookup by payment hash answers ErrPaymentNotInitiated; verifyAttempt's MPP / AMP / blinded rejections sit under exactly their mismatch conditions and stop the admission. After the repairs of round 5 (c16_fix5.go): the SQL loader always loads the hop rows and drops them from the answer only after SetState ran; an attempt without hash is stored under the payment hash by both stores; a blinded or MPP shard that delivers nothing is refused; the final hop of a stored attempt is dereferenced only below its own nil test, and a stored attempt without hops ends the admission.",
 		NotDecided: []string{
 			"concurrent histories (transaction isolation of bbolt / SQL is assumed)", "SQL statements and constraints of the native SQL store (e.g. the once-only attempt resolution there)",
 			"agreement of the two backends on whole histories",
